@@ -245,3 +245,60 @@ Example C14_setup_error_path_example :
   | None => False
   end.
 Proof. vm_compute. reflexivity. Qed.
+
+(** * "Signal delivered => flag set" as a statement about the sources (strengthening driven by seed C14-H)
+
+    The transition of [Point] in Model/Driver.v (`abort := abort || sig pc`) assumes that a SIGINT delivered at any
+    moment after main()'s first hook point runs `Display::SIGINT_handler`.  `translate/signals2coq.py` lists every place
+    under src/ and inc/ that names a function changing signal dispositions or masks ([signal_sites]), the top-level
+    statement of main() holding the first hook point and the handler's body; Model/Signals.v gives the list a semantics
+    (a disposition table updated by the sites in whatever order and number they are executed).
+
+    For the list of this run: the checker accepts it (every site installs `Display::SIGINT_handler` for SIGINT or concerns
+    another signal; main() installs the handler in a top-level statement before the one with its first hook point; the
+    handler's body is `Display::abort = true;`).  Hence, whatever sites the program executed before the installation
+    ([pre]) and executes after it ([post]) - any sites of the list, in any order, any number of times: SIGINT's disposition is
+    the handler, and delivering SIGINT turns the flag into `flag || true` and does nothing else - the model's transition. *)
+From Coq Require Import String.
+From Inovesa Require Import Model.Signals Gen.Gen_Signals Proofs.SignalsP Proofs.SignalsMainP.
+
+Theorem C14_sigint_handler_stays_installed :
+  sig_ok signal_sites main_first_point_stmt sigint_handler_body = true /\
+  (exists inst i, In inst signal_sites /\ is_install inst = true /\ s_where inst = SMainTop i /\ i < main_first_point_stmt) /\
+  (forall inst, In inst signal_sites -> is_install inst = true ->
+   forall (pre post : list sigsite) (d0 : disposition) (flag : bool),
+     (forall s, In s pre -> In s signal_sites) -> (forall s, In s post -> In s signal_sites) ->
+     run_sites (pre ++ inst :: post) (Some d0) = Some (DHandler the_handler) /\
+     deliver (run_sites (pre ++ inst :: post) (Some d0)) sigint_handler_body flag = Some (flag || true)).
+Proof.
+  exact (conj main_signals_checked
+          (conj (installed_before_first_point _ _ _ main_signals_checked)
+                (fun inst Hin Hi pre post d0 flag Hpre Hpost =>
+                   conj (disposition_fixed _ _ _ main_signals_checked inst Hin Hi pre post d0 Hpre Hpost)
+                        (delivery_sets_flag _ _ _ main_signals_checked inst Hin Hi pre post d0 flag Hpre Hpost)))).
+Qed.
+Print Assumptions C14_sigint_handler_stays_installed.
+
+(** the checker is sound for every list, not only today's *)
+Theorem C14_signal_checker_sound :
+  forall (sites : list sigsite) (first_point : Z) (body : list hstmt), sig_ok sites first_point body = true ->
+  forall inst, In inst sites -> is_install inst = true ->
+  forall (pre post : list sigsite) (d0 : disposition) (flag : bool),
+    (forall s, In s pre -> In s sites) -> (forall s, In s post -> In s sites) ->
+    deliver (run_sites (pre ++ inst :: post) (Some d0)) body flag = Some (flag || true).
+Proof. exact delivery_sets_flag. Qed.
+Print Assumptions C14_signal_checker_sound.
+
+(** non-vacuity: the hypotheses are satisfiable on the generated list (main()'s installation is in it); and lists of the kind
+    the checker is there to refuse: a dataset write wrapped in `signal(SIGINT, SIG_IGN)` ... `signal(SIGINT, old)` (under which
+    a delivered SIGINT is discarded: the flag stays false), a blocked signal, an installation after the first hook point *)
+Example C14_signal_examples :
+  (In main_install signal_sites /\ is_install main_install = true) /\
+  (let shield := mksite "src/IO/HDF5File.cpp" 26 "signal" true ["SIGINT"; "SIG_IGN"]%string SElsewhere in
+   sig_ok (shield :: mksite "src/IO/HDF5File.cpp" 28 "signal" true ["SIGINT"; "_handler"]%string SElsewhere :: signal_sites)
+          main_first_point_stmt sigint_handler_body = false /\
+   deliver (run_sites [main_install; shield] (Some DDefault)) sigint_handler_body false = Some false) /\
+  sig_ok (mksite "src/IO/Display.cpp" 10 "sigprocmask" true ["SIG_BLOCK"; "&set"; "nullptr"]%string SElsewhere :: signal_sites)
+         main_first_point_stmt sigint_handler_body = false /\
+  sig_ok signal_sites 1 sigint_handler_body = false.
+Proof. split; [exact main_install_in|]. vm_compute. repeat split; reflexivity. Qed.
